@@ -22,14 +22,20 @@ func regionRel(r *Run, kind, cmd string, n int) {
 		main := &c.Tpls[len(c.Tpls)-1]
 		main.KeepFmt = true
 		wrapped := []TNode{Region{Kind: kind, Body: body}}
-		c.Tpls = append(c.Tpls, TplDef{Key: "wrapped", Src: Source(wrapped), KeepFmt: true})
+		c.Tpls = append(c.Tpls, TplDef{Key: "wrapped", Src: Source(wrapped), KeepFmt: true, Ast: wrapped})
 		env := append([]SOp(nil), c.Ops[:len(c.Ops)-1]...)
 		ops := append([]SOp(nil), env...)
 		ops = append(ops, SOp{Kind: "render", Key: "main"}, SOp{Kind: "reset"})
 		ops = append(ops, env...)
 		ops = append(ops, SOp{Kind: "render", Key: "wrapped"})
 		c.Ops = ops
-		c.Run()
+		if !runWatched(r, c) {
+			break
+		}
+		if c.Panic != "" && panicInDependency(c.Panic) {
+			r.Dist["panic_in_dependency"]++
+			continue
+		}
 		if c.Panic != "" {
 			r.Violate("region-rel panic "+firstLine(c.Panic), "render panicked", c.Describe())
 			continue
@@ -56,6 +62,7 @@ func regionRel(r *Run, kind, cmd string, n int) {
 		lines = append(lines, fmt.Sprintf("%s 1 %s %s", cmd, a[1], b[1]))
 		r.Dist["region-rel:"+kind]++
 	}
+	checkParseBatch(r, cases) // the parser oracle on the same templates (the raw flag of every print is compared there)
 	ans := r.Drive(lines)
 	for i, c := range cases {
 		fs := strings.Fields(ans[i])
@@ -81,4 +88,17 @@ func regionRel(r *Run, kind, cmd string, n int) {
 			r.Sample(d)
 		}
 	}
+}
+
+// regionRaw: values marked raw are the one exception inside a region. Templates with |raw prints and
+// ternaries whose alternatives carry their own raw flag, inside regions of every kind: Go output = the
+// interpreter model on the real tree, and the parser oracle compares the raw flag of every print node.
+func regionRaw(r *Run, n int) {
+	cfg := GenCfg{MaxDepth: 3, MaxNodes: 12, Ternary: true, Region: true, Letters: true, Mods: true, PreSuf: true, Loops: true}
+	var cases []*RCase
+	for i := 0; i < n; i++ {
+		c, _ := genCase(r, cfg)
+		cases = append(cases, c)
+	}
+	runSessions(r, cases, outputDiffers)
 }
